@@ -246,7 +246,9 @@ func sizeMachine(deep bool) *machine[size.Size] {
 	m := &machine[size.Size]{typ: "size.Size", show: func(s size.Size) string { return fmt.Sprint(uint64(s)) }}
 	m.ops = append(m.ops, textOps("UnmarshalText", (*size.Size).UnmarshalText, append(valid, bad...))...)
 	js := []string{`12`, `"1KiB"`, `{"value":3,"unit":"MiB"}`, `{"unit":"kB","value":5,"x":[1,{"value":9}]}`, `0`, `{"value":1}`, `{"unit":"B"}`, `{"value":1,"value":2,"unit":"B"}`, `{"value":"1","unit":"B"}`, `{"value":1,"unit":"XB"}`,
-		`{"value":17,"unit":"EiB"}`, `-1`, `1.5`, `"x"`, `null`, `true`, `[1]`, `{"value":1,"unit":"B"`, `{"value":1,"unit":"B"} x`, `12 13`, ``, `{`, `"1KiB`, `{"value":1,"unit":"B"]`}
+		`{"value":17,"unit":"EiB"}`, `-1`, `1.5`, `"x"`, `null`, `true`, `[1]`, `{"value":1,"unit":"B"`, `{"value":1,"unit":"B"} x`, `12 13`, ``, `{`, `"1KiB`, `{"value":1,"unit":"B"]`,
+		// insignificant white space inside and around the value (accepted and rejected documents): the given bytes must stay as they are
+		`{"value": 1, "unit": "KiB"}`, ` 12 `, "\t\"1KiB\"\n", `{ "value" : 3 , "unit" : "MiB" }`, "{\n  \"unit\": \"kB\",\n  \"value\": 5\n}", `{"value": 1, "unit": "B"} x`, `{"value": 1, "unit": "XB"}`, `[ 1 , 2 ]`, `{"value": 1 }`, " \"1 024 KiB\" "}
 	m.ops = append(m.ops, textOps("UnmarshalJSON", (*size.Size).UnmarshalJSON, js)...)
 	m.ops = append(m.ops, jsonWrap[size.Size]([]string{`77`, `"2KiB"`, `{"value":9,"unit":"GB"}`, `"2XB"`, `{"value":9}`, `-5`})...)
 	return m
@@ -496,6 +498,32 @@ func main() {
 			{[]string{"size.DefaultParser(0)", "size.DefaultParser(RuleDisableUnit)", "size.DefaultParser(JSON forms)"}, "01 _kBKi\"{-.", q(5, 6), []string{"1 024 KiB", `{"value":1,"unit":"B"}`, `{"value":1,"unit":"B","x":1}`, `"1KiB"`, `{"value":1}`, `17EiB`}},
 			{[]string{"uu.DefaultParser(0)", "uu.DefaultParser(all rules)"}, "0aF-:", q(4, 5), []string{"ed7059f3-6fc0-4b0c-9b7a-2ea5a0b4b8f1", "URN:uuid:ED7059F3-6FC0-4B0C-9B7A-2EA5A0B4B8F2", "urn:uuid:ed7059f3-6fc0-4b0c-9b7a-2ea5a0b4b8f1"}},
 		}
+		// every rule value of the size parser (the messages of the JSON forms quote members and units)
+		for rule := 0; rule < 16; rule++ {
+			rule := rule
+			entries[fmt.Sprintf("size.DefaultParser(rule=%d)", rule)] = func(a, _ string) [4]outcome {
+				rr := size.Rule(rule)
+				return [4]outcome{oc(size.DefaultParser(a, rr)), oc(size.DefaultParser([]byte(a), rr)), oc(size.DefaultParser(S(a), rr)), oc(size.DefaultParser(B(a), rr))}
+			}
+		}
+		r.Phase("E1 agreement size.DefaultParser under each of the 16 rule values: 40 documents (text, number, string and object form; valid, invalid, unit present while disabled, unknown keys, trailing data) and their 1-deviation mutants over 12 byte values, in 4 instantiations", "complete for the listed documents", func() {
+			docs := []string{"12", "1KiB", "1 024 kB", "17EiB", "1XB", "", `10`, `"10 KiB"`, `"10"`, `"1 XB"`, `{"value":1,"unit":"KiB"}`, `{"value":1,"unit":"B"}`, `{"value":1,"unit":""}`, `{"unit":"MB","value":2,"x":[1]}`,
+				`{"value":1}`, `{"unit":"B"}`, `{"value":1,"unit":"B","value":2}`, `{"value":"1","unit":"B"}`, `{"value":1,"unit":2}`, `{"value":1,"unit":"XB"}`, `{"value":17,"unit":"EiB"}`, `{"value":-1,"unit":"B"}`,
+				`10 20`, `10 KiB`, `{"value":1,"unit":"KiB"} x`, `"10 KiB" "x"`, `[1]`, `null`, `1.5`, `1e3`, `{`, `{"value":1,"unit":"KiB"`, `"1KiB`, ` 12 `, `{"value": 1, "unit": "KiB"}`, `{"VALUE":1,"Unit":"kB"}`, `{"value":1,"unit":"KiB","unit":"B"}`,
+				`{"x":{"value":1},"value":2,"unit":"B"}`, `{"value":18446744073709551616,"unit":"B"}`, `"` + strings.Repeat("1", 130) + `"`}
+			r.Parallel(int64(len(docs)), 1, func(w *mc.W, i int64) {
+				f := func(m []byte) {
+					for rule := 0; rule < 16; rule++ {
+						w.Point()
+						w.NonTrivial()
+						pA.Do(w, agreeArg{Entry: fmt.Sprintf("size.DefaultParser(rule=%d)", rule), In: mc.Bin(m)})
+					}
+				}
+				f([]byte(docs[i]))
+				mc.Mutations1([]byte(docs[i]), []byte("0 \"{}:,xB\\\xff"), f)
+			})
+			r.Serial(func(w *mc.W) { w.Outcome("agreement size rules") })
+		})
 		for _, u := range unis {
 			u := u
 			r.Phase(fmt.Sprintf("E1 agreement %v: all strings over %q up to length %d + 1-deviation mutants (256 values) of %d texts, in 4 instantiations", u.entries, u.alpha, u.maxLen, len(u.bases)), "complete", func() {
